@@ -1,10 +1,12 @@
-(* C17: property theorems.  Statements only; every proof is `exact` of a lemma in Proofs/. *)
+(* C17 -- Valid parameters always yield a schedule; invalid ones fail before any action
+   Property theorems only: each proof is one application of a lemma proved in Proofs/, followed by Print Assumptions. *)
 From Coq Require Import ZArith List Bool.
-From CS Require NAdv.
+From CS Require NAdv AllocProofs.
+From CS Require Import Actions NAdvance Multistage Exec Sched RunFacts Projections BasicInv MultistageRun TLBridge.
 Import ListNotations.
 Open Scope Z_scope.
 
-(* n_advance never raises on its domain; range; optimal region *)
+(* n_advance never raises on its domain; range; limiting cases; optimal region *)
 Module M_C17_n_advance_total.
 Import NAdv.
 Theorem C17_n_advance_total :
@@ -25,4 +27,23 @@ Theorem C17_n_advance_total :
 Proof. exact (@NAdv.n_advance_spec). Qed.
 Print Assumptions C17_n_advance_total.
 End M_C17_n_advance_total.
+
+(* shape of a constructed Multistage schedule *)
+Module M_C17_construct_labels.
+Import AllocProofs.
+Theorem C17_construct_labels :
+  forall (N ram disk : Z) (tj : NAdvance.traj) (c : Multistage.cfg),
+         1 <= N ->
+         0 <= ram ->
+         0 <= disk ->
+         Multistage.construct N ram disk tj = Actions.Ok c ->
+         Multistage.max_n c = N /\
+         Multistage.tr c = tj /\
+         Forall (fun l : Actions.storage => l = Actions.RAM \/ l = Actions.DISK) (Multistage.labels c) /\
+         Multistage.total c = Z.min (Z.min ram (N - 1) + Z.min disk (N - 1)) (N - 1) /\
+         Multistage.count_st Actions.RAM (Multistage.labels c) <= Z.min ram (N - 1) /\
+         Multistage.count_st Actions.DISK (Multistage.labels c) <= Z.min disk (N - 1).
+Proof. exact (@AllocProofs.construct_labels). Qed.
+Print Assumptions C17_construct_labels.
+End M_C17_construct_labels.
 
